@@ -39,8 +39,14 @@ JOINT = {
               'CheckIssuerKey', 'CheckCr50U2f'],
 }
 CONTEXTS = ['alone-seq', 'alone-rev', 'batch', 'perm1', 'perm2',
-            'plus-healthy', 'warm']
+            'plus-healthy', 'warm', 'foreign-first', 'shrink-grow']
 BATCH_CONTEXTS = ['batch', 'perm1', 'perm2', 'plus-healthy', 'warm']
+# 'foreign-first' is a sub-batch: comparable for individually judging checks
+# and, for jointly judging ones, only where the judgement is per curve/issuer
+SUBBATCH_OK = {'CheckECKeySmallDifference', 'CheckLCGNonceGMP',
+               'CheckLCGNonceJavaUtilRandom', 'CheckNonceMSB',
+               'CheckNonceCommonPrefix', 'CheckNonceCommonPostfix',
+               'CheckNonceGeneralized', 'CheckCr50U2f', 'CheckIssuerKey'}
 
 
 def plan(tier, seed):
@@ -68,7 +74,9 @@ def build_group(ctx, fam, g):
              'bothpattern', 'keypair', 'small', 'exponent', 'shared', 'shared',
              'n1shared', 'n1shared', 'roca', 'prime', 'square', 'even',
              'oddlen', 'healthy', 'healthy']
-    pick = rng.sample(kinds, 7) + ['shared', 'shared']
+    pick = rng.sample(kinds, 6) + ['shared', 'shared', 'pollard-weak-small',
+                                  'pollard-below-gate', 'pollard-below-gate']
+    rng.shuffle(pick)
     pool = []
     arts = [workloads.rsa_artifact(rng, k, pool) for k in pick]
     # a key that makes an early pattern size succeed next to one needing a
@@ -231,6 +239,26 @@ def run(ctx, spec):
           _order(ctx, fam, '%s/%d/%s' % (context, g, name)).shuffle(order)
         if context == 'plus-healthy':
           extra = _copies(healthy)
+        if context == 'shrink-grow':
+          # non-monotone batch sizes on the same singletons: the whole batch,
+          # then one artifact, then half of the batch (verdicts of the last
+          # call are recorded)
+          if name in JOINT[fam]:
+            continue
+          chk.Check(_copies(protos))
+          chk.Check(_copies(protos[:1]))
+          order = order[:max(2, len(order) // 2)]
+        if context == 'foreign-first':
+          # the artifacts of one curve behind a single artifact of another
+          # curve (sub-list indexes differ from batch indexes by one)
+          def cid(a):
+            return (a.ec_info if fam == 'ec' else a.issuer_key_info).curve_type
+          if fam == 'rsa':
+            order = order[1:] + order[:1]
+          else:
+            c0 = cid(protos[0])
+            other = [i for i in order if cid(protos[i]) != c0]
+            order = other[:1] + [i for i in order if cid(protos[i]) == c0]
         batch = _copies([protos[i] for i in order])
         full = batch + extra
         if extra:
@@ -257,7 +285,8 @@ def finalize(agg, tier):
   seen_mech = {}
   for (fam, g, check, i), ctxs in sorted(by.items()):
     individual = check in INDIVIDUAL[fam]
-    use = CONTEXTS if individual else BATCH_CONTEXTS
+    use = CONTEXTS if individual else BATCH_CONTEXTS + (
+        ['foreign-first'] if check in SUBBATCH_OK else [])
     recs = [(c, ctxs[c]) for c in use if c in ctxs]
     if len(recs) < 2:
       continue
